@@ -3,6 +3,7 @@ package rules
 import (
 	"go/token"
 	"go/types"
+	"strings"
 
 	"gldapverif/an"
 
@@ -229,6 +230,25 @@ func (c *Ctx) checkEntryOrder() {
 		return
 	}
 	sorted := false
+	// the names may also come sorted from a helper: the loop ranges over the result of a module function that
+	// collects the map's keys, sorts them (total order) after the map range and returns that very slice
+	if iff, ok := head.Instrs[len(head.Instrs)-1].(*ssa.If); ok {
+		if bo, ok := iff.Cond.(*ssa.BinOp); ok {
+			if lc, ok := bo.Y.(*ssa.Call); ok && len(lc.Common().Args) == 1 {
+				if hc, ok := an.Strip(lc.Common().Args[0]).(*ssa.Call); ok {
+					if hf := hc.Common().StaticCallee(); hf != nil && an.InModule(hf) && len(hf.Blocks) > 0 {
+						if okH, why := sortedKeysHelper(hf); okH {
+							R.OK("C16-order", "NewEntry: names sorted by a total order", c.pos(hc), fname(hf)+": "+why)
+							sorted = true
+						} else {
+							R.Fail("C16-order", "NewEntry: names sorted by a total order", c.pos(hc), "the names come from "+fname(hf)+", which does not return them sorted by a total order: "+why)
+							sorted = true // reported above
+						}
+					}
+				}
+			}
+		}
+	}
 	for _, ci := range an.Calls(f) {
 		cc := ci.Common()
 		if an.CalleeIs(cc, "sort", "Strings") || an.CalleeIs(cc, "sort", "Sort") || an.CalleeIs(cc, "sort", "Slice") || an.CalleeIs(cc, "sort", "SliceStable") ||
@@ -252,6 +272,50 @@ func (c *Ctx) checkEntryOrder() {
 		}
 	}
 	R.Check(sorted, "C16-order", "NewEntry: attribute order independent of map iteration", c.pos(appendCall), "names collected from the map are sorted before the loop that builds Attributes", "the names are not sorted between the map iteration and building Attributes: order is not deterministic")
+}
+
+// sortedKeysHelper: f returns a slice that it sorted, by a total order on
+// strings, after every map iteration of f, on every path.
+func sortedKeysHelper(f *ssa.Function) (bool, string) {
+	var mapRanges []*ssa.Range
+	an.Instrs(f, func(in ssa.Instruction) {
+		if r, ok := in.(*ssa.Range); ok {
+			if _, isMap := r.X.Type().Underlying().(*types.Map); isMap {
+				mapRanges = append(mapRanges, r)
+			}
+		}
+	})
+	var sortCall ssa.CallInstruction
+	for _, ci := range an.Calls(f) {
+		cc := ci.Common()
+		sf := cc.StaticCallee()
+		if sf == nil {
+			continue
+		}
+		pp := an.FuncPkgPath(sf)
+		if (pp == "sort" || pp == "slices" || pp == "golang.org/x/exp/slices") && strings.HasPrefix(sf.Name(), "S") && len(cc.Args) >= 1 {
+			if ok, why := totalStringOrder(cc); !ok {
+				return false, "its sort " + why
+			}
+			sortCall = ci
+		}
+	}
+	if sortCall == nil {
+		return false, "no sort call"
+	}
+	for _, mr := range mapRanges {
+		if !an.InstrDominates(mr, sortCall) {
+			return false, "a map iteration follows the sort"
+		}
+	}
+	sortedSlice := an.Path(an.Strip(sortCall.Common().Args[0]))
+	for _, ret := range an.Returns(f) {
+		res := an.ReturnResults(ret)
+		if len(res) != 1 || an.Path(an.Strip(res[0])) != sortedSlice || !an.InstrDominates(sortCall, ret) {
+			return false, "does not return the slice it sorted on every path"
+		}
+	}
+	return true, "collects the keys, sorts them with a total order after the map iteration and returns that slice"
 }
 
 // totalStringOrder: the sort call orders a []string by the natural (byte-wise)
@@ -354,6 +418,33 @@ func byteValuesFromStrings(v ssa.Value, depth int, seen map[ssa.Value]bool) bool
 		return true
 	case *ssa.Const:
 		return x.IsNil()
+	case *ssa.MakeSlice:
+		// b := make([][]byte, len(values)); for i := range values { b[i] = []byte(values[i]) }
+		if x.Referrers() == nil {
+			return false
+		}
+		n := 0
+		for _, r := range *x.Referrers() {
+			ia, ok := r.(*ssa.IndexAddr)
+			if !ok || ia.Referrers() == nil {
+				continue
+			}
+			for _, rr := range *ia.Referrers() {
+				st, ok := rr.(*ssa.Store)
+				if !ok || st.Addr != ssa.Value(ia) {
+					continue
+				}
+				cv, ok := st.Val.(*ssa.Convert)
+				if !ok {
+					return false
+				}
+				if b, ok := cv.X.Type().Underlying().(*types.Basic); !ok || b.Kind() != types.String {
+					return false
+				}
+				n++
+			}
+		}
+		return n > 0
 	case *ssa.UnOp:
 		// load of the same field (append to existing)
 		if _, name, ok := an.LoadField(x); ok && name == "ByteValues" {
